@@ -378,15 +378,26 @@ def run_check(tier, seed):
             futs.append(([h], pool.submit(run_harness, exe, wd, 'f_' + h.lines[0].split()[1], h.n, lines, 120)))
         results = [(hs, f.result()) for hs, f in futs]
         pool.shutdown()
-        # which model variant: does the F2 witness deadlock on this tree?
-        fx = 0
+        # which model variant does this tree follow?  decided from the three witness replays:
+        #   zeroPath : the F2 witness returns instead of deadlocking
+        #   vardGuard: `vardAll | N 4 | N 4` on an empty file leaves the record count at 0 (unrepaired: 4)
+        #   waitScan : waiting for the second of two pending iputs (records 0 and 5) gives 6 records (unrepaired: 0)
+        fz = fv = fw = 0
         for hs, (S, H, done) in results:
             if hs[0] is witf2:
-                fx = 0 if H else 1
+                fz = 0 if H else 1
+            for h in hs:
+                if h is wit[1]:
+                    x = S.get(('wvd', 1, 0))
+                    fv = 1 if (x and int(x['nr']) == 0) else 0
+                if h is wit[0]:
+                    x = S.get(('wpw', 3, 0))
+                    fw = 1 if (x and int(x['nr']) == 6) else 0
+        fx = '%d%d%d' % (fz, fv, fw)
         allh = hists + wit + f2 + [witf2]
         script = []
         for h in allh:
-            script += [h.lines[0] + ' fx=%d' % fx] + h.lines[1:]
+            script += [h.lines[0] + ' fx=%s' % fx] + h.lines[1:]
         M = lean_model(drv, script)
         stats, tie_diffs, distinct, nev, dist = {}, [], set(), 0, {}
         for hs, (S, H, done) in results:
@@ -394,7 +405,7 @@ def run_check(tier, seed):
                 nev += judge_history(h, S, H, M, V, stats, tie_diffs, distinct)
                 for op in h.ops:
                     dist[op.split()[0]] = dist.get(op.split()[0], 0) + 1
-        log('[S4] %d histories (%d calls evaluated) on %s ranks in %.1fs; model variant fx=%d' % (len(allh), nev, ns, t1.s(), fx))
+        log('[S4] %d histories (%d calls evaluated) on %s ranks in %.1fs; model variant (zeroPath, vardGuard, waitScan) = %s' % (len(allh), nev, ns, t1.s(), fx))
         V.cov['evaluations'] = nev
         V.cov['distinct_nontrivial'] = len(distinct)
         V.cov['traces_validated_against_impl'] = len(allh) - len(set(t[0] for t in tie_diffs))
